@@ -207,6 +207,15 @@ where
                             if !failing.get() && stop.load(Ordering::Relaxed) {
                                 return Ok(());
                             }
+                            // every panic of the program retires one executor thread for good (it cannot unwind out of the program's
+                            // `extern "C"` entrypoint); the process stops generating before the kernel's mapping limit ends it
+                            if !failing.get() && crate::rt::PANICS.load(Ordering::Relaxed) > crate::rt::PANIC_BUDGET {
+                                let mut l = local.borrow_mut();
+                                if !l.counters.contains_key("stopped_early/program_panic_budget_of_the_process_spent") {
+                                    l.count("stopped_early/program_panic_budget_of_the_process_spent");
+                                }
+                                return Ok(());
+                            }
                             let mut l = local.borrow_mut();
                             if !l.frozen {
                                 l.evals += 1;
